@@ -224,6 +224,8 @@ static int on_data(const char *hook, htp_tx_data_t *d) {
             r->bodyhash[side][idx] = bh;
             r->bodylen[side][idx] += (long) d->len;
         }
+    } else if (isbody && d->len > 0 && idx >= 0 && idx < 64) {
+        r->bodylen[side][idx] += (long) d->len;          /* a stream gap inside the body: delivered as NULL data with the length of the gap */
     }
     int rp = tx->request_progress, sp = tx->response_progress;
     int b = behave(r, hook, tx, &rn, &an);
